@@ -34,7 +34,10 @@ JudgeIndex(e) ==
   THEN IF e.res.k = "exc" THEN V("ok", e.res.t = "IndexError") ELSE V("Index.MustRaise", FALSE)
   ELSE JudgeValue("Index", e.res, AbsIndex(Cells(e.f), e.i), ImplIndex(e.f, e.i))
 
-JudgeAdd(e) == JudgeValue("Add", e.res, AbsAdd(Cells(e.x.v), Cells(e.y.v)), ImplAdd(e.x.v, e.y.v))
+\* x + y, str + f, f + str, and the augmented form x += y (which must leave another reference to x as it was)
+JudgeAdd(e) ==
+  LET j == JudgeValue("Add", e.res, AbsAdd(Cells(e.x.v), Cells(e.y.v)), ImplAdd(e.x.v, e.y.v))
+  IN IF j[1] = "ok" /\ (e.x2 # e.x.v \/ e.y2 # e.y.v) THEN V("Add.OperandChanged", FALSE) ELSE j
 JudgeMul(e) == JudgeValue("Mul", e.res, AbsMul(Cells(e.f), e.n), ImplMul(e.f, e.n))
 JudgeJoin(e) ==
   LET items == [k \in 1..Len(e.items) |-> e.items[k].v]
